@@ -18,9 +18,17 @@ import pkgcommon as pk
 from common import enc_str
 
 PIC_MTS = [u'image/png', u'image/jpeg', u'image/gif', u'image/svg+xml', u'application/x-odfpy-unknown', u'']
-EXPLICIT = [u'Pictures/custom%d.png', u'Pictures/a b%d.png', u'media/x%d.bin', u'Pictures/\xfc%d.png', u'Pictures/deep/er/%d.jpg',
-            u'ObjectReplacements/Object %d']
-EXTRA_FILES = [(u'Configurations2/accelerator/current.xml', u''), (u'layout-cache', u'application/binary'),
+# explicit picture names ({n} = 1..3, so the same name is re-registered now and then).  Names are data, never to be decoded:
+# percent escapes, blanks, URL/XML metacharacters, non-ASCII, case variants, a leading './', and pairs that differ only by such an encoding
+TRICKY = [u'Pictures/100%25-{n}.png', u'Pictures/a%20b{n}.gif', u'Pictures/a b{n}.gif', u'Pictures/a+b{n}.gif', u'Pictures/a%2Bb{n}.gif',
+          u'Pictures/x#{n}.png', u'Pictures/x%23{n}.png', u'Pictures/q?{n}.png', u'Pictures/r&s{n}.png', u'Pictures/r&amp;s{n}.png',
+          u"Pictures/it's{n}.png", u'Pictures/q"<{n}>.png', u'Pictures/\xe9{n}.png', u'Pictures/%C3%A9{n}.png', u'Pictures/\u6f22{n}.png',
+          u'Pictures/Case{n}.PNG', u'Pictures/case{n}.png', u'./Pictures/dot{n}.png', u'Pictures/dot{n}.png', u'Pictures/%2e%2e/up{n}.png']
+EXPLICIT = [u'Pictures/custom{n}.png', u'media/x{n}.bin', u'Pictures/\xfc{n}.png', u'Pictures/deep/er/{n}.jpg',
+            u'ObjectReplacements/Object {n}'] + TRICKY
+EXTRA_FILES = [(u'media/100%25.bin', u''), (u'media/a%20b.bin', u'x/y'), (u'media/a b.bin', u'x/y'), (u'media/\xe9\u6f22.bin', u''),
+               (u"media/q?&'#+\"<.bin", u'a&b'), (u'Media/UP.bin', u''), (u'media/up.bin', u''), (u'./dotted.bin', u''), (u'dotted.bin', u''),
+               (u'Configurations2/accelerator/current.xml', u''), (u'layout-cache', u'application/binary'),
                (u'foo/bar.bin', u'application/octet-stream'), (u'META-INF/documentsignatures.xml', u''),
                (u'Basic/script-lc.xml', u'text/xml'), (u'manifest.rdf', u'application/rdf+xml'), (u'Thumbnails/other.png', u'image/png')]
 EXTRA_DIRS = [u'Configurations2/', u'Configurations2/images/Bitmaps/', u'Basic/', u'Pictures/']
@@ -37,7 +45,7 @@ def gen_pic(rng, n):
     elif how == 'string':
         p['mt'] = rng.choice(PIC_MTS[:5])
     else:
-        p['name'] = rng.choice(EXPLICIT) % rng.choice([1, 1, 2, 3])     # small pool: re-registration under one name happens
+        p['name'] = rng.choice(EXPLICIT).format(n=rng.choice([1, 1, 2, 3]))     # small pool: re-registration under one name happens
         p['mt'] = rng.choice(PIC_MTS)
     return p
 
@@ -59,8 +67,8 @@ def gen_package(rng, special=None):
     kind = rng.choice(['text', 'spreadsheet'])
     ps = {'kind': kind, 'settings': rng.choice(['none', 'empty', 'full']),
           'mimetype': pk.KINDS[kind], 'root': pk.KINDS[kind],
-          'pics': [(u'Pictures/pkg%d.png' % i, rng.choice(PIC_MTS), bytes(rng.randrange(256) for _ in range(4)).hex())
-                   for i in range(rng.choice([0, 1, 2]))],
+          'pics': [((u'Pictures/pkg%d.png' % i) if rng.random() < 0.6 else rng.choice(TRICKY[:17]).format(n=i), rng.choice(PIC_MTS),
+                    bytes(rng.randrange(256) for _ in range(4)).hex()) for i in range(rng.choice([0, 1, 2, 3]))],
           'thumb': bytes(rng.randrange(256) for _ in range(5)).hex() if rng.random() < 0.5 else None,
           'thumbdir': rng.random() < 0.7,
           'xfiles': [(n, t, bytes(rng.randrange(256) for _ in range(3)).hex()) for n, t in rng.sample(EXTRA_FILES, rng.choice([0, 1, 2, 4]))],
@@ -287,6 +295,16 @@ def gen_cases(chk, n):
                                                          {'how': 'file', 'data': '02', 'mt': None, 'ext': '.png'}], 'thumb': None, 'kids': []}]}]}, 'base': None}
     for sp in specials:
         yield {'doc': {'kind': 'text', 'settings': False, 'pics': [], 'thumb': None, 'kids': []}, 'base': gen_package(rng, sp)}
+    def tricky_pics(k):
+        return [{'how': 'named', 'name': t.format(n=k), 'mt': u'image/png', 'data': ('%02x%02x' % (i, k))} for i, t in enumerate(TRICKY)]
+    yield {'doc': {'kind': 'text', 'settings': False, 'thumb': None, 'pics': tricky_pics(1), 'kids': [
+        {'kind': 'spreadsheet', 'settings': False, 'thumb': None, 'pics': tricky_pics(1), 'kids': [
+            {'kind': 'text', 'settings': True, 'thumb': None, 'pics': tricky_pics(2), 'kids': []}]}]}, 'base': None}
+    base = gen_package(rng)
+    base['pics'] = [(t.format(n=5), u'image/gif', ('%02x' % i)) for i, t in enumerate(TRICKY[:17])]
+    base['xfiles'] = [(n_, t_, '0a0b') for n_, t_ in EXTRA_FILES[:9]]
+    yield {'doc': {'kind': base['kind'], 'settings': False, 'thumb': None, 'pics': tricky_pics(5)[:6], 'kids': [
+        {'kind': 'text', 'settings': False, 'thumb': None, 'pics': tricky_pics(3), 'kids': []}]}, 'base': base}
     yield {'doc': {'kind': 'text', 'settings': False, 'thumb': None, 'kids': [],
                    'pics': [{'how': 'file', 'data': '616263', 'mt': None, 'ext': '', 'relpath': u'd.//a'}]}, 'base': None}
     # exhaustive matrix: picture kind x nesting depth of the object that owns it x thumbnail x settings x extras
@@ -318,6 +336,7 @@ def gen_cases(chk, n):
 def run(chk, replay=None):
     chk.rule = ('seeded random document trees (depth <= 4 levels, <= 3 objects per level, 0-3 pictures per document drawn from '
                 'addPictureFromFile / addPicture(file) / addPictureFromString / addPicture(name, type, bytes), thumbnail, settings on/off); '
+                'explicit names and loaded member names include %XX escapes, blanks, + # ? & quotes < >, non-ASCII, case variants, a leading ./ and pairs differing only by such an encoding; '
                 '30% start from load() of a hand-made package with extras, directories, pictures, objects and a shuffled manifest; '
                 'plus the exhaustive matrix picture kind x owner depth 0..3 x thumbnail x settings x from-load (128 cases); '
                 'non-trivial = at least one embedded object or picture or extra')
